@@ -200,6 +200,7 @@ pub fn run_lines(p: &dyn Prop, lines: &[String], out_dir: &str, n_corpus: usize)
         progress.store(i as u64, Ordering::SeqCst);
         if let Some(f) = prog.as_mut() { use std::io::{Seek, SeekFrom}; let _ = f.seek(SeekFrom::Start(0)); let _ = writeln!(f, "{:<12}", i); }
         started.store((t0.elapsed().as_millis() as u64).max(1), Ordering::SeqCst);
+        proto_select(i < n_corpus, line);
         let reply = catch(|| p.exec(line));
         started.store(0, Ordering::SeqCst);
         writeln!(out, "{}", reply)?;
@@ -253,5 +254,239 @@ pub fn run_lines(p: &dyn Prop, lines: &[String], out_dir: &str, n_corpus: usize)
     }
     s.push_str("]\n}\n");
     std::fs::write(format!("{}/summary.json", out_dir), s)?;
+    Ok(())
+}
+
+// ------------------------------------------------------------------------------------------------
+// Iterator protocol: HOW an iterator is consumed must not matter.
+//
+// The models describe `next()`; the default methods of `Iterator` (count, last, nth, skip, step_by,
+// fold, peekable ..) are functions of the `next()` sequence (lean/Rc/Lemmas/IterProto.lean proves
+// that once, for any `next`).  What is checked here on the real code is the other half: whatever a
+// type OVERRIDES (size_hint, nth, count, last, fold, ExactSizeIterator::len, ..) agrees with the
+// defaults, i.e. every consumption order observes the same sequence and none of them panics.
+
+static PROTO_ON: std::sync::atomic::AtomicBool = std::sync::atomic::AtomicBool::new(true);
+
+/// is the protocol check wanted for the request being executed?  (`exec` mode = replay / shrinking: always;
+/// `run` mode: corpus lines, requests of at most 6000 characters and a quarter of the longer ones - see
+/// `proto_select`; the reply token is `proto=ok` when the check is not run)
+pub fn proto_on() -> bool { PROTO_ON.load(Ordering::SeqCst) }
+
+/// run loop: decide from the request line alone (plus "is a corpus line")
+pub fn proto_select(is_corpus: bool, line: &str) {
+    let mut h: u64 = 0xcbf29ce484222325;
+    for b in line.bytes() { h = (h ^ b as u64).wrapping_mul(0x100000001b3); }
+    PROTO_ON.store(is_corpus || line.len() <= 6000 || (h >> 7) % 4 == 0, Ordering::SeqCst);
+}
+
+fn proto_step<R>(what: impl Fn() -> String, f: impl FnOnce() -> R) -> Result<R, String> {
+    catch_unwind(AssertUnwindSafe(f)).map_err(|_| format!("{}:panicked", what()))
+}
+
+fn proto_eq(what: impl Fn() -> String, got: &[String], want: &[String]) -> Result<(), String> {
+    if got == want { return Ok(()); }
+    let i = got.iter().zip(want.iter()).position(|(a, b)| a != b).unwrap_or(got.len().min(want.len()));
+    Err(format!("{}:yields-{}-items,next()-yields-{};first-difference-at-{}", what(), got.len(), want.len(), i))
+}
+
+/// The protocol check of one iterator.  `mk` makes a fresh iterator; `show` prints an item
+/// (items are compared through it); `bound` = the most items the `next()` sequence may have.
+/// `Err` = the first consumption that panicked or observed something else than the `next()`
+/// sequence R (text without spaces).  Nothing here calls `next()` again after a `None`
+/// (the iterators need not be fused) and every collection is bounded by `take`.
+pub fn iter_protocol<I, T>(mk: impl Fn() -> I, show: impl Fn(&T) -> String, bound: usize) -> Result<(), String>
+where I: Iterator<Item = T> {
+    // R: plain next() on a fresh iterator
+    let r: Vec<String> = match proto_step(|| "next()".into(), || {
+        let mut it = mk();
+        let mut v = Vec::new();
+        loop {
+            match it.next() { Some(x) => v.push(show(&x)), None => return Some(v) }
+            if v.len() > bound { return None; }
+        }
+    })? { Some(v) => v, None => return Err(format!("next():more-than-{}-items", bound)) };
+    let n = r.len();
+    let cap = n + 8;
+    let opt = |x: Option<T>| x.map(|x| show(&x));
+    let want_opt = |k: usize| r.get(k).cloned();
+    // (long sequences - thousands of items, thorough tier - get the positions that matter most, to stay
+    // far below the per-request watchdog: every position costs a few passes over the sequence)
+    let big = n > 4000;
+    let mut ks: Vec<usize> = if big { vec![1, n, n + 1] } else { vec![0, 1, n.saturating_sub(1), n, n + 1, n + 7] };
+    ks.sort(); ks.dedup();
+    let mut js: Vec<usize> = if big { vec![1, n / 2] } else { vec![0, 1.min(n), n / 2, n] };
+    js.sort(); js.dedup();
+
+    // size_hint before and after each next() (not after the None)
+    proto_step(|| "size_hint()".into(), || -> Result<(), String> {
+        let mut it = mk();
+        for i in 0..=n {
+            let (lo, hi) = it.size_hint();
+            let rem = n - i;
+            if lo > rem || hi.map_or(false, |h| rem > h) {
+                return Err(format!("size_hint()=({},{})-after-{}-of-{}-items", lo, hi.map_or("None".to_string(), |h| h.to_string()), i, n));
+            }
+            if i < n { it.next(); }
+        }
+        Ok(())
+    })??;
+    // whole-sequence consumers on a fresh iterator
+    let c = proto_step(|| "count()".into(), || mk().count())?;
+    if c != n { return Err(format!("count()={},next()-yields-{}", c, n)); }
+    let l = proto_step(|| "last()".into(), || opt(mk().last()))?;
+    if l != r.last().cloned() { return Err("last():not-the-last-item-of-next()".into()); }
+    for k in &ks {
+        let k = *k;
+        let (got, rest) = proto_step(|| format!("nth({})", k), || {
+            let mut it = mk();
+            let g = opt(it.nth(k));
+            let rest: Vec<String> = if k < n { it.take(cap).map(|x| show(&x)).collect() } else { Vec::new() };
+            (g, rest)
+        })?;
+        if got != want_opt(k) { return Err(format!("nth({})-of-{}-items:{}", k, n, if got.is_some() { "wrong-item" } else { "None" })); }
+        if k < n { proto_eq(|| format!("next()-after-nth({})", k), &rest, &r[k + 1..])?; }
+        let from = k.min(n);
+        let got: Vec<String> = proto_step(|| format!("skip({})", k), || mk().skip(k).take(cap).map(|x| show(&x)).collect())?;
+        proto_eq(|| format!("skip({})", k), &got, &r[from..])?;
+        let c = proto_step(|| format!("skip({}).count()", k), || mk().skip(k).count())?;
+        if c != n - from { return Err(format!("skip({}).count()={},next()-yields-{}", k, c, n - from)); }
+        let l = proto_step(|| format!("skip({}).last()", k), || opt(mk().skip(k).last()))?;
+        if l != r[from..].last().cloned() { return Err(format!("skip({}).last():not-the-last-item", k)); }
+        let (lo, hi) = proto_step(|| format!("skip({}).size_hint()", k), || mk().skip(k).size_hint())?;
+        if lo > n - from || hi.map_or(false, |h| n - from > h) { return Err(format!("skip({}).size_hint():excludes-{}", k, n - from)); }
+    }
+    for s in [2usize, 3] {
+        let got: Vec<String> = proto_step(|| format!("step_by({})", s), || mk().step_by(s).take(cap).map(|x| show(&x)).collect())?;
+        let want: Vec<String> = r.iter().step_by(s).cloned().collect();
+        proto_eq(|| format!("step_by({})", s), &got, &want)?;
+    }
+    // consumers of the REST: after j items through by_ref().take(j)
+    for j in &js {
+        let j = *j;
+        let after = |what: &str| format!("{}-after-{}-of-{}-items", what, j, n);
+        let start = |what: &str| -> Result<I, String> {
+            let mut it = mk();
+            let head: Vec<String> = it.by_ref().take(j).map(|x| show(&x)).collect();
+            proto_eq(|| after(&format!("by_ref().take({})[{}]", j, what)), &head, &r[..j])?;
+            Ok(it)
+        };
+        let want = &r[j..];
+        let c = proto_step(|| after("count()"), || start("count").map(|it| it.count()))??;
+        if c != want.len() { return Err(format!("{}={},next()-yields-{}", after("count()"), c, want.len())); }
+        let l = proto_step(|| after("last()"), || start("last").map(|it| opt(it.last())))??;
+        if l != want.last().cloned() { return Err(format!("{}:not-the-last-item", after("last()"))); }
+        let got: Vec<String> = proto_step(|| after("collect()"), || start("collect").map(|it| it.take(cap).map(|x| show(&x)).collect()))??;
+        proto_eq(|| after("collect()"), &got, want)?;
+        let got: Vec<String> = proto_step(|| after("fold()"), || start("fold").map(|it| it.fold(Vec::new(), |mut v, x| { if v.len() < cap { v.push(show(&x)); } v })))??;
+        proto_eq(|| after("fold()"), &got, want)?;
+        let mut k = 0usize;
+        proto_step(|| after("for_each()"), || start("for_each").map(|it| it.for_each(|_| k += 1)))??;
+        if k != want.len() { return Err(format!("{}:{}-items,next()-yields-{}", after("for_each()"), k, want.len())); }
+        let (pk, c) = proto_step(|| after("peekable().peek();count()"), || start("peek").map(|it| {
+            let mut p = it.peekable();
+            let pk = p.peek().map(|x| show(x));
+            (pk, p.count())
+        }))??;
+        if pk != want.first().cloned() || c != want.len() { return Err(format!("{}={},next()-yields-{}", after("peekable().peek();count()"), c, want.len())); }
+        // searching consumers (defaults go through try_fold; an override may not)
+        let f = proto_step(|| after("find(false)"), || start("find").map(|mut it| it.find(|_| false).is_some()))??;
+        if f { return Err(format!("{}:found", after("find(false)"))); }
+        let mut seen = 0usize;
+        let a = proto_step(|| after("all(true)"), || start("all").map(|mut it| it.all(|_| { seen += 1; true })))??;
+        if !a || seen != want.len() { return Err(format!("{}:visited-{}-of-{}", after("all(true)"), seen, want.len())); }
+        let p = proto_step(|| after("position(last)"), || start("position").map(|mut it| { let mut i = 0usize; it.position(|_| { i += 1; i == want.len() }) }))??;
+        if p != want.len().checked_sub(1) { return Err(format!("{}:{:?}", after("position(last)"), p).replace(' ', "")); }
+        let m = proto_step(|| after("max_by(equal)"), || start("max_by").map(|it| opt(it.max_by(|_, _| std::cmp::Ordering::Equal))))??;
+        if m != want.last().cloned() { return Err(format!("{}:not-the-last-item", after("max_by(equal)"))); }
+        let m = proto_step(|| after("reduce(first)"), || start("reduce").map(|it| opt(it.reduce(|a, _| a))))??;
+        if m != want.first().cloned() { return Err(format!("{}:not-the-first-item", after("reduce(first)"))); }
+    }
+    Ok(())
+}
+
+/// `iter_protocol` plus, for `I: Clone`: a clone taken after j items yields R[j..], and so does the original
+pub fn iter_protocol_clone<I, T>(mk: impl Fn() -> I, show: impl Fn(&T) -> String, bound: usize) -> Result<(), String>
+where I: Iterator<Item = T> + Clone {
+    iter_protocol(&mk, &show, bound)?;
+    let r: Vec<String> = proto_step(|| "next()".into(), || mk().take(bound + 1).map(|x| show(&x)).collect())?;
+    let n = r.len();
+    let mut js: Vec<usize> = vec![0, 1.min(n), n / 2, n];
+    js.sort(); js.dedup();
+    for j in js {
+        let (a, b): (Vec<String>, Vec<String>) = proto_step(|| format!("clone()-after-{}-items", j), || {
+            let mut it = mk();
+            for _ in 0..j { it.next(); }
+            let c = it.clone();
+            // the clone first, then the original: neither may depend on the other
+            let a: Vec<String> = c.take(n + 8).map(|x| show(&x)).collect();
+            let b: Vec<String> = it.take(n + 8).map(|x| show(&x)).collect();
+            (a, b)
+        })?;
+        proto_eq(|| format!("clone()-after-{}-items", j), &a, &r[j..])?;
+        proto_eq(|| format!("original-after-clone()-after-{}-items", j), &b, &r[j..])?;
+    }
+    Ok(())
+}
+
+#[allow(dead_code)]
+/// `iter_protocol` plus `ExactSizeIterator::len()` before each `next()`
+pub fn iter_protocol_exact<I, T>(mk: impl Fn() -> I, show: impl Fn(&T) -> String, bound: usize) -> Result<(), String>
+where I: ExactSizeIterator<Item = T> {
+    iter_protocol(&mk, &show, bound)?;
+    proto_step(|| "len()".into(), || -> Result<(), String> {
+        let n = mk().take(bound + 1).count();
+        let mut it = mk();
+        for i in 0..=n {
+            // (ExactSizeIterator::len asserts lower == upper of size_hint: a panic here is a finding)
+            let l = it.len();
+            if l != n - i { return Err(format!("len()={}-after-{}-of-{}-items", l, i, n)); }
+            if i < n { it.next(); }
+        }
+        Ok(())
+    })?
+}
+
+#[allow(dead_code)]
+/// `iter_protocol` plus `rev()` for `I: DoubleEndedIterator`
+pub fn iter_protocol_rev<I, T>(mk: impl Fn() -> I, show: impl Fn(&T) -> String, bound: usize) -> Result<(), String>
+where I: DoubleEndedIterator<Item = T> {
+    iter_protocol(&mk, &show, bound)?;
+    let (f, mut b): (Vec<String>, Vec<String>) = proto_step(|| "rev()".into(), || (
+        mk().take(bound + 1).map(|x| show(&x)).collect(), mk().rev().take(bound + 1).map(|x| show(&x)).collect()))?;
+    b.reverse();
+    proto_eq(|| "rev()".into(), &b, &f)
+}
+
+/// Collects the verdicts of the iterators of one request: the first failure, as the reply token
+/// `proto=ok` / `proto=<iterator>:<failure>` (the model side prints the constant `proto=ok`).
+pub struct Proto { first: Option<String>, on: bool }
+
+impl Proto {
+    pub fn new() -> Self { Proto { first: None, on: proto_on() } }
+    pub fn on(&self) -> bool { self.on && self.first.is_none() }
+    /// record the verdict of iterator `name` (the check itself runs only when `on()`)
+    pub fn put(&mut self, name: &str, r: impl FnOnce() -> Result<(), String>) {
+        if !self.on() { return; }
+        let v = match catch_unwind(AssertUnwindSafe(r)) { Ok(v) => v, Err(_) => Err("making-the-iterator:panicked".to_string()) };
+        if let Err(e) = v { self.first = Some(format!("{}:{}", name, e).replace(' ', "_")); }
+    }
+    pub fn it<I: Iterator<Item = T>, T>(&mut self, name: &str, mk: impl Fn() -> I, show: impl Fn(&T) -> String, bound: usize) {
+        self.put(name, || iter_protocol(mk, show, bound));
+    }
+    pub fn itc<I: Iterator<Item = T> + Clone, T>(&mut self, name: &str, mk: impl Fn() -> I, show: impl Fn(&T) -> String, bound: usize) {
+        self.put(name, || iter_protocol_clone(mk, show, bound));
+    }
+    pub fn value(&self) -> String { self.first.clone().unwrap_or_else(|| "ok".to_string()) }
+    pub fn token(&self) -> String { format!("proto={}", self.value()) }
+}
+
+/// oracle side: judge the `proto=` token of a reply (absent token = nothing to judge)
+pub fn proto_judge(reply: &str) -> Result<(), String> {
+    for t in reply.split(|c| c == ' ' || c == '|') {
+        if let Some(v) = t.strip_prefix("proto=") {
+            if v != "ok" { return Err(format!("an iterator's overridden methods disagree with its next() sequence (or panic): {}", v)); }
+        }
+    }
     Ok(())
 }
